@@ -4,6 +4,7 @@ import (
 	"context"
 	"math"
 	"reflect"
+	"strconv"
 	"sync"
 	"time"
 
@@ -69,6 +70,13 @@ type exRes struct {
 	bogus bool
 	alt   bool // the second candidate of a hedged resolve
 }
+
+// c09KeyA and c09KeyB are distinct key types that print alike (and like the string "7").
+type c09KeyA int
+type c09KeyB int
+
+func (k c09KeyA) String() string { return strconv.Itoa(int(k)) }
+func (k c09KeyB) String() string { return strconv.Itoa(int(k)) }
 
 // exValuePanic is what a scripted value function panics with.
 var exValuePanic = any("c10: scripted panic of a value function")
@@ -514,6 +522,8 @@ func (w *exWorld) perform(c *exCallRec) {
 		return
 	}
 	w.outcome(c, v.Result, v.Error)
+	// the outcome a caller received is that caller's: what it does to it is nobody else's business
+	v.Result, v.Error = "overwritten by the caller", nil
 	v2, ok2 := <-ch
 	if ok2 {
 		w.fail("C10", "C10.two-outcomes", "call %d (%s): outcome channel delivered a second value %v", c.id, exKindName[op.kind], v2)
@@ -728,7 +738,7 @@ func exclusiveRun(prop string) {
 	w := &exWorld{
 		prop:    prop,
 		e:       new(bigbuff.Exclusive),
-		keys:    []interface{}{nil, "b", 3}[:nKeys],
+		keys:    [][]interface{}{{nil, "b", 3}, {c09KeyA(7), c09KeyB(7), "7"}}[simrt.Draw(2)][:nKeys],
 		unit:    time.Microsecond,
 		running: make([][]*exExecRec, nKeys),
 		invoked: make([]int, nKeys),
@@ -793,6 +803,14 @@ func exclusiveRun(prop string) {
 	for _, e := range w.execs {
 		if e.held && e.end == 0 {
 			heldNow = true
+		}
+		// an execution that has resolved but not returned (held in its resolve-to-return gap): the call
+		// whose function it runs is certainly one of the calls it answers, and the outcome is due at the
+		// resolve, not at the return (other calls made before it began may belong to the next execution)
+		if c := e.fn; e.resolved && e.end == 0 && !e.hedged && c.invoked && !c.start && !c.got {
+			w.fail("C10", "C10.answer-waits-for-return", "quiescent: execution %d (key %d), which runs the function of call %d (%s), resolved at stamp %d and is still running; that call has not received its outcome: coalesced callers are answered when the work resolves, not when it returns",
+				e.id, e.key, c.id, exKindName[c.op.kind], e.rstamp)
+			return
 		}
 	}
 	for _, c := range w.calls {
